@@ -768,6 +768,464 @@ Section Gen.
   End WithExact.
 End Gen.
 
+(* ------------------------------------------------------------------ 1b. WHY an exact form stopped (progress clause)
+   A second, independent contract of the endpoint: an invariant [P] of its state kept by every call, what it could
+   still deliver / take [leftof], and [CallWhy]: a call that answers Ok(0) on a non-empty window does so because the
+   behaviour scripted for it is zero-ish (the log's last entry) or because the endpoint has nothing left; the only
+   I/O errors of a call are an interruption and the hard error.  From it: the reason with which retry_eintr!, the
+   provided exact loop, the slice / region forms and try_access end.  These lemmas read the reason off the EQUATION
+   "operation = Val (final state, result)"; the control-flow facts come from the contracts above. *)
+Section WhyGen.
+  Variable call : callT sfd.
+  Variable sc0 : list fbeh.
+  Variable P : sfd -> Prop.
+  Variable leftof : sfd -> option N.
+
+  Definition Qi (f : sfd) : Prop := P f /\ ScrInv sc0 f.
+  Definition ZStop (f' : sfd) : Prop :=
+    (logof sc0 f' <> [] /\ zeroish (last (logof sc0 f') Zero) = true) \/ leftof f' = Some 0.
+  (* refused without moving anything: the endpoint holds / takes less than the window *)
+  Definition Refused (f : sfd) (len : N) (f' : sfd) : Prop :=
+    f_st f' = f_st f /\ exists l, leftof f' = Some l /\ l < len.
+  Definition CallWhy : Prop := forall f m v f' m' r, Qi f -> in_bounds v m -> call f m v = Val ((f', m'), r) ->
+    Qi f' /\ nlen m' = nlen m /\
+    match r with
+    | Ok k => k = 0 -> vs_len v <> 0 -> ZStop f'
+    | Err (VIo e) => e = EInterrupted \/ e = EOther
+    | Err _ => True
+    end.
+  (* g: the guest-grade contract (no refusal) *)
+  Definition ExWhy (g : bool) (ex : exactT) : Prop := forall f m pb f' m' r, Qi f -> in_bounds pb m ->
+    ex f m pb = Val ((f', m'), r) ->
+    Qi f' /\ nlen m' = nlen m /\
+    match r with
+    | Err (VIo e) => e = EOther \/ ZStop f' \/ (g = false /\ Refused f (vs_len pb) f')
+    | _ => True
+    end.
+  Lemma ExWhy_weaken ex : ExWhy true ex -> ExWhy false ex.
+  Proof.
+    intros H f m pb f' m' r Hq Hb He. destruct (H f m pb f' m' r Hq Hb He) as (A & B & C).
+    split; [exact A|]. split; [exact B|]. destruct r as [u|[e| |]]; auto.
+    destruct C as [C|[C|[C _]]]; [auto|auto|discriminate C].
+  Qed.
+
+  Hypothesis Hwhy : CallWhy.
+
+  Lemma retry_why : forall fuel f m v f' m' r, Qi f -> in_bounds v m ->
+    retry_eintr fuel call f m v = Val ((f', m'), r) ->
+    Qi f' /\ nlen m' = nlen m /\
+    match r with
+    | Ok k => k = 0 -> vs_len v <> 0 -> ZStop f'
+    | Err (VIo e) => e = EOther
+    | Err _ => True
+    end.
+  Proof.
+    induction fuel as [|fl IH]; intros f m v f' m' r Hq Hb H; [discriminate H|].
+    cbn [retry_eintr] in H. destruct (call f m v) as [[[f1 m1] r1]| |] eqn:E; cbn [bind] in H; try discriminate H.
+    destruct (Hwhy f m v f1 m1 r1 Hq Hb E) as (Hq1 & Hm1 & Hr1).
+    destruct r1 as [n|[[| | |]| |]]; try (inversion H; subst f1 m1 r; clear H; split; [exact Hq1|]; split; [exact Hm1|]).
+    - exact Hr1.
+    - destruct (IH f1 m1 v f' m' r Hq1) as (A & B & C); [unfold in_bounds in *; lia|exact H|].
+      split; [exact A|]. split; [lia|exact C].
+    - destruct Hr1; discriminate.
+    - destruct Hr1; discriminate.
+    - reflexivity.
+    - exact I.
+    - exact I.
+  Qed.
+
+  Lemma exact_loop_why zerr fi : forall fuel f m pb f' m' r, Qi f -> in_bounds pb m ->
+    exact_loop zerr fi fuel call f m pb = Val ((f', m'), r) ->
+    Qi f' /\ nlen m' = nlen m /\
+    match r with
+    | Err (VIo e) => e = EOther \/ ZStop f'
+    | _ => True
+    end.
+  Proof.
+    induction fuel as [|fl IH]; intros f m pb f' m' r Hq Hb H; [discriminate H|].
+    cbn [exact_loop] in H. destruct (N.eqb_spec (vs_len pb) 0) as [Hz|Hz].
+    { inversion H; subst. auto. }
+    destruct (retry_eintr fi call f m pb) as [[[f1 m1] r1]| |] eqn:E; cbn [bind] in H; try discriminate H.
+    destruct (retry_why fi f m pb f1 m1 r1 Hq Hb E) as (Hq1 & Hm1 & Hr1).
+    destruct r1 as [n|e1].
+    - destruct (N.eqb_spec n 0) as [Hn|Hn].
+      + inversion H; subst f1 m1 r. split; [exact Hq1|]. split; [exact Hm1|]. right. apply Hr1; assumption.
+      + destruct (vs_offset pb n) as [pb'|e2] eqn:Eo.
+        * assert (Hb' : in_bounds pb' m1).
+          { unfold vs_offset in Eo. destruct (checked_add (vs_addr pb) n); [|discriminate Eo].
+            destruct (checked_sub (vs_len pb) n) as [x|] eqn:Ec; [|discriminate Eo].
+            apply checked_sub_Some in Ec. inversion Eo. unfold in_bounds in *. cbn [vs_off vs_len]. lia. }
+          destruct (IH f1 m1 pb' f' m' r Hq1 Hb' H) as (A & B & C). split; [exact A|]. split; [lia|exact C].
+        * inversion H; subst f1 m1 r. split; [exact Hq1|]. split; [exact Hm1|].
+          destruct (vs_offset_err_kind _ _ _ Eo) as [->| ->]; exact I.
+    - inversion H; subst f1 m1 r. split; [exact Hq1|]. split; [exact Hm1|].
+      destruct e1 as [e| |]; [left; exact Hr1|exact I|exact I].
+  Qed.
+
+  Lemma exact_volatile_why zerr F : ExWhy true (exact_volatile zerr F call).
+  Proof.
+    intros f m pb f' m' r Hq Hb H. unfold exact_volatile in H.
+    destruct (vs_offset pb 0) as [pb0|e0] eqn:Eo.
+    - assert (Hb0 : in_bounds pb0 m).
+      { unfold vs_offset in Eo. destruct (checked_add (vs_addr pb) 0); [|discriminate Eo].
+        destruct (checked_sub (vs_len pb) 0) as [x|] eqn:Ec; [|discriminate Eo].
+        apply checked_sub_Some in Ec. inversion Eo. unfold in_bounds in *. cbn [vs_off vs_len]. lia. }
+      destruct (exact_loop_why zerr F F f m pb0 f' m' r Hq Hb0 H) as (A & B & C).
+      split; [exact A|]. split; [exact B|]. destruct r as [u|[e| |]]; auto. destruct C; auto.
+    - inversion H; subst. split; [exact Hq|]. split; [reflexivity|].
+      destruct (vs_offset_err_kind _ _ _ Eo) as [->| ->]; exact I.
+  Qed.
+
+  (* the up-to forms of a slice: one call inside retry_eintr! *)
+  Lemma vs_upto_why fuel self addr f m count f' m' r : Qi f -> in_bounds self m ->
+    vs_upto fuel call self addr f m count = Val ((f', m'), r) ->
+    Qi f' /\ nlen m' = nlen m /\
+    match r with
+    | Ok k => k = 0 -> addr < vs_len self -> 0 < count -> ZStop f'
+    | Err (VIo e) => e = EOther
+    | Err _ => True
+    end.
+  Proof.
+    intros Hq Hb H. unfold vs_upto in H.
+    destruct (vs_offset self addr) as [sl|e1] eqn:Eo.
+    - assert (Hsl : vs_len sl = vs_len self - addr /\ vs_off sl = vs_off self + addr /\ addr <= vs_len self).
+      { unfold vs_offset in Eo. destruct (checked_add (vs_addr self) addr); [|discriminate Eo].
+        destruct (checked_sub (vs_len self) addr) as [x|] eqn:Ec; [|discriminate Eo].
+        apply checked_sub_Some in Ec. inversion Eo. cbn [vs_len vs_off]. lia. }
+      destruct (vs_subslice sl 0 (N.min (vs_len sl) count)) as [sl2|e2] eqn:Es; [|discriminate H].
+      assert (Hsl2 : vs_len sl2 = N.min (vs_len sl) count /\ vs_off sl2 = vs_off sl + 0).
+      { unfold vs_subslice in Es. destruct (checked_add 0 (N.min (vs_len sl) count)); [|discriminate Es].
+        destruct (vs_len sl <? n); [discriminate Es|]. inversion Es. cbn [vs_len vs_off]. auto. }
+      assert (Hb2 : in_bounds sl2 m) by (unfold in_bounds in *; lia).
+      destruct (retry_why fuel f m sl2 f' m' r Hq Hb2 H) as (A & B & C).
+      split; [exact A|]. split; [exact B|]. destruct r as [k|[e| |]]; auto.
+      intros Hk Ha Hc. apply C; [exact Hk|lia].
+    - inversion H; subst. split; [exact Hq|]. split; [reflexivity|].
+      destruct (vs_offset_err_kind _ _ _ Eo) as [->| ->]; exact I.
+  Qed.
+
+  Section WithExWhy.
+  Variable g : bool.
+  Variable ex : exactT.
+  Hypothesis Hexw : ExWhy g ex.
+
+  Lemma vs_exact_e_why self addr f m count f' m' r : Qi f -> in_bounds self m ->
+    vs_exact_e ex self addr f m count = Val ((f', m'), r) ->
+    Qi f' /\ nlen m' = nlen m /\
+    match r with
+    | Err (VIo e) => e = EOther \/ ZStop f' \/ (g = false /\ Refused f count f')
+    | _ => True
+    end.
+  Proof.
+    intros Hq Hb H. unfold vs_exact_e in H.
+    destruct (vs_subslice self addr count) as [sl|e1] eqn:Es.
+    - assert (Hsl : vs_len sl = count /\ in_bounds sl m).
+      { unfold vs_subslice in Es. destruct (checked_add addr count) as [x|] eqn:Ec; [|discriminate Es].
+        apply checked_add_Some in Ec. destruct (N.ltb_spec (vs_len self) x); [discriminate Es|]. inversion Es.
+        unfold in_bounds in *. cbn [vs_len vs_off]. lia. }
+      destruct Hsl as [Hl Hbs]. rewrite <- Hl. exact (Hexw f m sl f' m' r Hq Hbs H).
+    - inversion H; subst. split; [exact Hq|]. split; [reflexivity|].
+      destruct (vs_subslice_err_kind _ _ _ _ Es) as [->| ->]; exact I.
+  Qed.
+  End WithExWhy.
+End WhyGen.
+
+(* the bytes moved between two states of the stream, read off its byte list *)
+Definition dkL (rd : bool) (pj : sfd -> list N) (f f' : sfd) : N :=
+  if rd then nlen (pj f) - nlen (pj f') else nlen (pj f') - nlen (pj f).
+Lemma GMovedL_det rd pj Extra t f m a k f' m' : GMovedL rd pj Extra t f m a k f' m' -> k = dkL rd pj f f'.
+Proof.
+  intros [_ H]. unfold dkL. destruct rd.
+  - destruct H as (A1 & A2 & _). rewrite A1, nlen_ndrop. lia.
+  - destruct H as (bs & A1 & A2 & _). rewrite A2. apply flat_read_length in A1. unfold nlen. rewrite app_length, A1. lia.
+Qed.
+
+Section WhyOps.
+  Variable rd : bool.
+  Variable pj : sfd -> list N.
+  Variable Extra : sfd -> N -> sfd -> Prop.
+  Variable call : callT sfd.
+  Variable sc0 : list fbeh.
+  Variable InvB : N -> sfd -> Prop.
+  Variable zerr : ioerr.
+  Hypothesis Extra_refl : forall f, Extra f 0 f.
+  Hypothesis Extra_trans : forall f k1 f1 k2 f2, Extra f k1 f1 -> Extra f1 k2 f2 -> Extra f (k1 + k2) f2.
+  Hypothesis Hzerr : zerr = EUnexpectedEof \/ zerr = EWriteZero.
+  Hypothesis Hcall : CallSpec rd pj Extra call InvB.
+  Variable P : sfd -> Prop.
+  Variable leftof : sfd -> option N.
+  Hypothesis Hwhy : CallWhy call sc0 P leftof.
+  Variable F : nat.
+
+  (* why a try_access callback moved nothing / failed *)
+  Definition CbWhyL (L : list region) (M : N) (cb : cbT sfd) : Prop :=
+    forall total len start region f m f' m' r, In region L -> start + len <= g_len region -> nlen m = M ->
+      Qi sc0 P f -> cb total len start region f m = Val ((f', m'), r) ->
+      Qi sc0 P f' /\
+      (0 < len -> match r with
+                  | GOk k => k = 0 -> ZStop sc0 leftof f'
+                  | GErr (GIo e) => e = EOther \/ ZStop sc0 leftof f'
+                  | GErr _ => True
+                  end).
+
+  Lemma region_in_bounds L M region m : wf_regions L 0 = true -> total_len L = M -> In region L -> nlen m = M ->
+    in_bounds (region_slice region) m.
+  Proof.
+    intros Hwf HM Hin Hm. destruct (wf_regions_in L 0 region Hwf Hin) as (_ & _ & _ & Hmoff).
+    unfold in_bounds, region_slice. cbn [vs_off vs_len]. lia.
+  Qed.
+
+  Lemma cb_upto_whyL L M : wf_regions L 0 = true -> total_len L = M -> CbWhyL L M (cb_upto_l F call).
+  Proof.
+    intros Hwf HM total len start region f m f' m' r Hin Hle Hm Hq H.
+    pose proof (region_in_bounds L M region m Hwf HM Hin Hm) as Hb.
+    unfold cb_upto_l, region_upto in H.
+    destruct (vs_upto F call (region_slice region) start f m len) as [[[f1 m1] r1]| |] eqn:Ev;
+      cbn [omap fst snd] in H; try discriminate H.
+    inversion H; subst f1 m1 r; clear H.
+    destruct (vs_upto_why call sc0 P leftof Hwhy F _ _ _ _ _ _ _ _ Hq Hb Ev) as (A & B & C).
+    split; [exact A|]. intros Hlen. destruct r1 as [k|[e| |]]; cbn [map_err gerr_of]; auto.
+    intros Hk. apply C; [exact Hk|cbn [region_slice vs_len]; lia|exact Hlen].
+  Qed.
+  Lemma cb_all_e_whyL ex L M : ExWhy sc0 P leftof true ex -> wf_regions L 0 = true -> total_len L = M ->
+    CbWhyL L M (cb_all_e ex).
+  Proof.
+    intros Hexg Hwf HM total len start region f m f' m' r Hin Hle Hm Hq H.
+    pose proof (region_in_bounds L M region m Hwf HM Hin Hm) as Hb.
+    unfold cb_all_e, region_exact_e in H.
+    destruct (vs_exact_e ex (region_slice region) start f m len) as [[[f1 m1] r1]| |] eqn:Ev;
+      cbn [omap fst snd] in H; try discriminate H.
+    inversion H; subst f1 m1 r; clear H.
+    destruct (vs_exact_e_why sc0 P leftof true ex Hexg _ _ _ _ _ _ _ _ Hq Hb Ev) as (A & B & C).
+    split; [exact A|]. intros Hlen. destruct r1 as [u|[e| |]]; cbn [map_err gerr_of]; auto.
+    - intros Hk. lia.
+    - destruct C as [C|[C|[C _]]]; [auto|auto|discriminate C].
+  Qed.
+
+  (* try_access with cur = addr + total: it returns a count below the request only at an unmapped address or after
+     a callback that moved nothing *)
+  Lemma try_access_whyL md L M cb count addr :
+    wf_regions L 0 = true -> total_len L = M -> CbSpec rd pj Extra sc0 InvB F L M cb -> CbWhyL L M cb -> count < W64 ->
+    forall fuel B cur total f m, (N.to_nat (rem_from L cur) < fuel)%nat -> rem_from L cur <= B ->
+      (length (f_script f) < F)%nat -> InvB B f -> ScrInv sc0 f -> P f ->
+      Clean (logof sc0 f) -> nlen m = M -> cur < W64 -> cur = addr + total -> (total < count \/ total = 0) ->
+    match try_access md fuel L count addr cb cur total f m with
+    | Val ((f', m'), r) =>
+        Qi sc0 P f' /\
+        match r with
+        | GOk res => res = count \/ idx_of (TGuest L) (addr + res) = None \/ ZStop sc0 leftof f'
+        | GErr (GIo e) => e = EOther \/ ZStop sc0 leftof f'
+        | GErr _ => True
+        end
+    | _ => True
+    end.
+  Proof.
+    intros Hwf HM Hcb Hcw Hcount.
+    induction fuel as [|fl IH]; intros B cur total f m Hfu HrB Hf Hi Hs Hp Hc Hm Hcur Hta Htot; [exact I|].
+    cbn [try_access]. unfold find_region.
+    destruct (find (fun r => contains r cur) L) as [region|] eqn:Efind.
+    2:{ destruct (N.eqb_spec total 0) as [Hz|Hz]; (split; [split; assumption|]); [exact I|].
+        right. left. cbn [idx_of]. rewrite <- Hta, Efind. reflexivity. }
+    apply find_some in Efind. destruct Efind as [Hin Hcont].
+    destruct (wf_regions_in L 0 region Hwf Hin) as (Hlen & Hend & _ & Hmoff).
+    pose proof Hcont as Hcont'. apply contains_iff in Hcont'.
+    pose proof (rem_from_in L region cur Hin Hcont) as Hrem.
+    unfold to_region_addr, checked_sub.
+    destruct (N.leb_spec (g_start region) cur) as [_|Hbad]; [|lia].
+    destruct (N.ltb_spec (cur - g_start region) (g_len region)) as [_|Hbad]; [|lia].
+    set (start := cur - g_start region).
+    rewrite psub_Val by (unfold start; lia). rewrite psub_Val by lia. cbn [bind].
+    set (len := N.min (g_len region - start) (count - total)).
+    destruct (Hcb B total len start region f m Hin) as (f1 & m1 & r1 & k & Hcall' & Hs1 & Hl & Hi1 & HMv & Hk & Hres); auto.
+    { unfold len. lia. }
+    { unfold len, start. lia. }
+    rewrite Hcall'. cbn [bind].
+    destruct (Hcw total len start region f m f1 m1 r1 Hin) as [Hq1 Hw1];
+      [unfold len; lia|exact Hm|split; assumption|exact Hcall'|].
+    assert (Hm1 : nlen m1 = M).
+    { rewrite <- Hm. eapply (MovedL_len rd pj Extra Extra_refl Extra_trans); [|exact HMv]. unfold len, start in *. lia. }
+    destruct Hres as [(-> & Hc1)|[(-> & Hc1)|(e & -> & He & Hc1 & Hklt)]].
+    - destruct (N.eqb_spec k 0) as [Hk0|Hk0].
+      + split; [exact Hq1|]. destruct (N.eq_dec total count) as [Heq|Hne]; [left; exact Heq|].
+        right. right. apply Hw1; [unfold len, start; lia|exact Hk0].
+      + unfold checked_add. destruct (N.ltb_spec (total + k) W64) as [_|Hbad]; [|unfold len in Hk; lia].
+        destruct (N.ltb_spec (total + k) count) as [Hmore|Hdone].
+        * unfold overflowing_add. destruct (N.leb_spec W64 (cur + k)) as [Hbad|_];
+            [unfold len, start in Hk; lia|]. cbn [negb].
+          rewrite N.mod_small by (unfold len, start in Hk; lia).
+          assert (Hstep : rem_from L (cur + k) + k <= rem_from L cur).
+          { apply (rem_from_step L region cur k Hin Hcont). unfold len, start in Hk. lia. }
+          apply (IH (B - k) (cur + k) (total + k) f1 m1);
+            [lia|lia|lia|exact Hi1|exact Hs1|apply Hq1|exact Hc1|exact Hm1|unfold len, start in Hk; lia|lia|left; lia].
+        * destruct (N.eqb_spec (total + k) count) as [Heq|Hne]; [|exfalso; unfold len in Hk; lia].
+          split; [exact Hq1|]. left. exact Heq.
+    - split; [exact Hq1|]. left. reflexivity.
+    - split; [exact Hq1|]. apply Hw1. unfold len, start. lia.
+  Qed.
+
+  (* the guest-level exact forms: success, a hard error, or one of the excuses *)
+  Lemma gm_exact_whyL md L M cb count addr B f m f' m' r :
+    wf_regions L 0 = true -> total_len L = M -> CbSpec rd pj Extra sc0 InvB F L M cb -> CbWhyL L M cb ->
+    count < W64 -> addr < W64 -> (N.to_nat M < F)%nat -> M <= B ->
+    (length (f_script f) < F)%nat -> InvB B f -> ScrInv sc0 f -> P f -> Clean (logof sc0 f) -> nlen m = M ->
+    try_access md F L count addr cb addr 0 f m = Val ((f', m'), r) ->
+    Qi sc0 P f' /\
+    (r = GOk count \/ r = GErr (GIo EOther) \/ idx_of (TGuest L) (addr + dkL rd pj f f') = None \/ ZStop sc0 leftof f').
+  Proof.
+    intros Hwf HM Hcb Hcw Hcount Haddr HMF HMB Hf Hi Hs Hp Hc Hm H.
+    pose proof (rem_from_total L addr) as Hrt.
+    destruct (try_access_post rd pj Extra sc0 InvB Extra_refl Extra_trans F md L M cb count addr Hwf HM Hcb Hcount
+                F B addr 0 f m) as (f1 & m1 & r1 & K & Hr & _ & HG & _ & Hres); auto.
+    { lia. } { lia. }
+    assert (Hw := try_access_whyL md L M cb count addr Hwf HM Hcb Hcw Hcount F B addr 0 f m).
+    rewrite H in Hr, Hw. inversion Hr; subst f1 m1 r1. clear Hr.
+    destruct Hw as [Hq Hw]; auto; try lia.
+    split; [exact Hq|].
+    apply GMovedL_det in HG.
+    destruct Hres as [(-> & _ & _)|[(-> & _ & -> & _ & Hidx)|[(-> & _)|(e & -> & He & _ & _)]]];
+      rewrite ?N.add_0_l in *.
+    - destruct Hw as [Hw|[Hw|Hw]]; [left; f_equal; exact Hw|right; right; left; rewrite <- HG; exact Hw|right; right; right; exact Hw].
+    - right. right. left. rewrite <- HG, N.add_0_r. exact Hidx.
+    - right. left. reflexivity.
+    - destruct Hw as [->|Hw]; [destruct He; discriminate|right; right; right; exact Hw].
+  Qed.
+
+  Section WithEx2.
+  Variable ex : exactT.
+  Hypothesis Hex : ExactSpec rd pj Extra sc0 InvB zerr ex F.
+
+  (* the exact form of a slice refused before the endpoint was touched: the range leaves the slice *)
+  Lemma vs_exact_e_refused t self B f m addr count f' m' e :
+    window_of t self -> in_bounds self m -> vs_addr self + vs_len self < W64 -> vs_len self <= B ->
+    (N.to_nat (vs_len self) < F)%nat -> (length (f_script f) < F)%nat -> InvB B f -> ScrInv sc0 f -> Clean (logof sc0 f) ->
+    vs_exact_e ex self addr f m count = Val ((f', m'), Err e) -> (forall io, e <> VIo io) ->
+    f' = f /\ (judged t addr count -> fully_mapped t m addr count = false).
+  Proof.
+    intros Hw Hb Ha HB HF Hf Hi Hs Hc H Hne. unfold vs_exact_e, vs_subslice, checked_add in H.
+    destruct (N.ltb_spec (addr + count) W64) as [Hfit|Hovf].
+    - destruct (N.ltb_spec (vs_len self) (addr + count)) as [Hout|Hin].
+      + inversion H; subst. split; [reflexivity|]. intros Hj. eapply not_fully_mapped; eassumption.
+      + exfalso.
+        set (sl := {| vs_addr := vs_addr self + addr; vs_off := vs_off self + addr; vs_len := count |}) in H.
+        destruct (Hex B f m sl) as (f1 & m1 & r1 & k & He & _ & _ & _ & _ & _ & Hres); auto.
+        { unfold sl. cbn [vs_len]. lia. }
+        { unfold in_bounds, sl in *. cbn [vs_off vs_len]. lia. }
+        { unfold sl. cbn [vs_addr vs_len]. lia. }
+        { unfold sl. cbn [vs_len]. lia. }
+        rewrite He in H. inversion H; subst.
+        destruct Hres as [(E & _)|[(E & _)|(E & _)]]; try discriminate E; inversion E; eapply Hne; eauto.
+    - inversion H; subst. split; [reflexivity|]. intros Hj. eapply not_fully_mapped; try eassumption.
+      unfold in_bounds in Hb. lia.
+  Qed.
+
+  (* the exact operation of a case: if it neither succeeded nor failed hard, it has one of the excuses *)
+  Lemma exec_ep_why c f' m' rk a b :
+    ExWhy sc0 P leftof false ex -> (w_op c = WrAll -> ExWhy sc0 P leftof true ex) ->
+    wf14 (case14_of c) = true -> F = fuel14own c -> sc0 = w_script c ->
+    InvB (nlen (w_mem c)) (init_of c) -> P (init_of c) ->
+    is_exact (w_op c) = true -> exec_ep call ex c = Val ((f', m'), (rk, a, b)) -> rk <> 1 -> rk <> 5 ->
+    judged (w_target c) (w_addr c) (w_count c) ->
+    Qi sc0 P f' /\
+    (idx_of (w_target c) (w_addr c + dkL rd pj (init_of c) f') = None
+     \/ (f' = init_of c /\ fully_mapped (w_target c) (w_mem c) (w_addr c) (w_count c) = false)
+     \/ ZStop sc0 leftof f' \/ Refused leftof (init_of c) (w_count c) f').
+  Proof.
+    intros Hexw Hexg Hwf HF Hsc Hi Hp Hx H H1 H5 Hj.
+    unfold wf14 in Hwf. cbn [case14_of c_target c_mem c_addr c_count] in Hwf.
+    rewrite !andb_true_iff in Hwf. destruct Hwf as [[[Ht HB] Haddr] Hcount].
+    apply N.ltb_lt in HB, Haddr, Hcount.
+    assert (Hf : (length (f_script (init_of c)) < F)%nat) by (rewrite HF; unfold fuel14own; cbn [init_of f_script]; lia).
+    assert (HMF : (N.to_nat (nlen (w_mem c)) < F)%nat) by (rewrite HF; unfold fuel14own; lia).
+    assert (Hs : ScrInv sc0 (init_of c)) by (rewrite Hsc; reflexivity).
+    assert (Hc : Clean (logof sc0 (init_of c))) by apply Clean_nil.
+    assert (Hq : Qi sc0 P (init_of c)) by (split; assumption).
+    unfold exec_ep in H. rewrite <- HF in H.
+    (* the result of a slice-level exact form *)
+    assert (Hvs : forall t self r1, w_target c = t -> window_of t self -> in_bounds self (w_mem c) ->
+              vs_addr self + vs_len self < W64 -> vs_len self <= nlen (w_mem c) ->
+              vs_exact_e ex self (w_addr c) (init_of c) (w_mem c) (w_count c) = Val ((f', m'), r1) ->
+              match r1 with
+              | Ok _ => True
+              | Err (VIo e) =>
+                  Qi sc0 P f' /\ (e = EOther \/ ZStop sc0 leftof f' \/ Refused leftof (init_of c) (w_count c) f')
+              | Err _ => f' = init_of c /\ fully_mapped t (w_mem c) (w_addr c) (w_count c) = false
+              end).
+    { intros t self r1 Et Hw Hb Ha HBl Ev.
+      assert (HFl : (N.to_nat (vs_len self) < F)%nat) by lia.
+      destruct r1 as [u|[e| |]]; [exact I| | |].
+      - destruct (vs_exact_e_why sc0 P leftof false ex Hexw _ _ _ _ _ _ _ _ Hq Hb Ev) as (A & _ & C).
+        split; [exact A|]. destruct C as [C|[C|[_ C]]]; auto.
+      - destruct (vs_exact_e_refused t self _ _ _ _ _ _ _ _ Hw Hb Ha HBl HFl Hf Hi Hs Hc Ev) as [-> Hfm];
+          [intros io; discriminate|]. split; [reflexivity|]. apply Hfm. rewrite <- Et. exact Hj.
+      - destruct (vs_exact_e_refused t self _ _ _ _ _ _ _ _ Hw Hb Ha HBl HFl Hf Hi Hs Hc Ev) as [-> Hfm];
+          [intros io; discriminate|]. split; [reflexivity|]. apply Hfm. rewrite <- Et. exact Hj. }
+    destruct (w_target c) as [soff slen|r|L] eqn:Et.
+    - apply N.leb_le in Ht. rewrite Hx in H.
+      set (self := {| vs_addr := HBASE + soff; vs_off := soff; vs_len := slen |}) in *.
+      assert (Hw : window_of (TSlice soff slen) self) by (intros x; reflexivity).
+      assert (Hb : in_bounds self (w_mem c)) by (unfold in_bounds, self; cbn [vs_off vs_len]; lia).
+      assert (Ha : vs_addr self + vs_len self < W64) by (unfold self; cbn [vs_addr vs_len]; lia).
+      assert (HBl : vs_len self <= nlen (w_mem c)) by (unfold self; cbn [vs_len]; lia).
+      destruct (vs_exact_e ex self (w_addr c) (init_of c) (w_mem c) (w_count c)) as [[[f1 m1] r1]| |] eqn:Ev;
+        cbn [omap fst snd] in H; try discriminate H.
+      inversion H; subst f1 m1. specialize (Hvs _ self r1 eq_refl Hw Hb Ha HBl Ev).
+      destruct r1 as [u|[e| |]]; cbn [rc_res rc_io] in *; unfold okc_u in *.
+      + exfalso. apply H1. congruence.
+      + destruct Hvs as [A [->|[C|C]]]; [exfalso; apply H5; cbn [rc_io] in *; congruence|auto|auto].
+      + destruct Hvs as [-> Hfm]. split; [exact Hq|]. auto.
+      + destruct Hvs as [-> Hfm]. split; [exact Hq|]. auto.
+    - rewrite !andb_true_iff in Ht. destruct Ht as [[[Hr1 Hr2] Hr3] Hr4].
+      apply N.eqb_eq in Hr1, Hr2. apply N.ltb_lt in Hr3, Hr4. rewrite Hx in H.
+      assert (Hw : window_of (TRegion r) (region_slice r)) by (intros x; reflexivity).
+      assert (Hb : in_bounds (region_slice r) (w_mem c)) by (unfold in_bounds, region_slice; cbn [vs_off vs_len]; lia).
+      assert (Ha : vs_addr (region_slice r) + vs_len (region_slice r) < W64)
+        by (unfold region_slice; cbn [vs_addr vs_len]; lia).
+      assert (HBl : vs_len (region_slice r) <= nlen (w_mem c)) by (cbn [region_slice vs_len]; lia).
+      unfold region_exact_e in H.
+      destruct (vs_exact_e ex (region_slice r) (w_addr c) (init_of c) (w_mem c) (w_count c)) as [[[f1 m1] r1]| |] eqn:Ev;
+        cbn [omap fst snd] in H; try discriminate H.
+      rewrite rc_gres_map_err in H.
+      inversion H; subst f1 m1. specialize (Hvs _ (region_slice r) r1 eq_refl Hw Hb Ha HBl Ev).
+      destruct r1 as [u|[e| |]]; cbn [rc_res rc_io] in *; unfold okc_u in *.
+      + exfalso. apply H1. congruence.
+      + destruct Hvs as [A [->|[C|C]]]; [exfalso; apply H5; cbn [rc_io] in *; congruence|auto|auto].
+      + destruct Hvs as [-> Hfm]. split; [exact Hq|]. auto.
+      + destruct Hvs as [-> Hfm]. split; [exact Hq|]. auto.
+    - rewrite andb_true_iff in Ht. destruct Ht as [Hwf HM]. apply N.eqb_eq in HM.
+      assert (HB' : HBASE + nlen (w_mem c) < W64) by exact HB.
+      destruct (w_op c) eqn:Eo; try discriminate Hx.
+      + unfold gm_read_exact_volatile_from, gm_exact_of, gm_read_volatile_from in H.
+        destruct (try_access (w_mode c) F L (w_count c) (w_addr c)
+                    (fun _ len caddr region s m => region_upto F call region caddr s m len)
+                    (w_addr c) 0 (init_of c) (w_mem c)) as [[[f1 m1] r1]| |] eqn:Et'; cbn [omap fst snd] in H; try discriminate H.
+        inversion H; subst f1 m1.
+        destruct (gm_exact_whyL (w_mode c) L _ (cb_upto_l F call) (w_count c) (w_addr c) _ (init_of c) (w_mem c) f' m' r1
+                    Hwf HM (cb_upto_spec rd pj Extra call sc0 InvB Extra_refl Extra_trans Hcall F L _ Hwf HM HB')
+                    (cb_upto_whyL L _ Hwf HM) Hcount Haddr HMF (N.le_refl _) Hf Hi Hs Hp Hc eq_refl Et')
+          as [A [->|[->|[C|C]]]].
+        * exfalso. apply H1. rewrite N.eqb_refl in *. cbn [rc_gres] in *. unfold okc_u in *. congruence.
+        * exfalso. apply H5. cbn [rc_gres rc_io] in *. congruence.
+        * auto.
+        * auto.
+      + unfold gm_exact_of, gm_write_volatile_to_e in H.
+        destruct (try_access (w_mode c) F L (w_count c) (w_addr c)
+                    (fun _ len caddr region s m =>
+                       omap (fun x => (fst x, match snd x with GOk _ => GOk len | GErr e => GErr e end))
+                            (region_exact_e ex region caddr s m len))
+                    (w_addr c) 0 (init_of c) (w_mem c)) as [[[f1 m1] r1]| |] eqn:Et'; cbn [omap fst snd] in H; try discriminate H.
+        inversion H; subst f1 m1.
+        destruct (gm_exact_whyL (w_mode c) L _ (cb_all_e ex) (w_count c) (w_addr c) _ (init_of c) (w_mem c) f' m' r1
+                    Hwf HM (cb_all_e_spec rd pj Extra sc0 InvB zerr Extra_refl Extra_trans Hzerr ex F Hex L _ Hwf HM HB' HMF)
+                    (cb_all_e_whyL ex L _ (Hexg eq_refl) Hwf HM) Hcount Haddr HMF (N.le_refl _) Hf Hi Hs Hp Hc eq_refl Et')
+          as [A [->|[->|[C|C]]]].
+        * exfalso. apply H1. rewrite N.eqb_refl in *. cbn [rc_gres] in *. unfold okc_u in *. congruence.
+        * exfalso. apply H5. cbn [rc_gres rc_io] in *. congruence.
+        * auto.
+        * auto.
+  Qed.
+  End WithEx2.
+End WhyOps.
+
 (* ------------------------------------------------------------------ 2. the endpoints *)
 Lemma MovedL_same rd (pj : sfd -> list N) (Extra : sfd -> N -> sfd -> Prop) f m base f' :
   Extra f 0 f' -> pj f' = pj f -> MovedL rd pj Extra f m base 0 f' m.
@@ -1177,6 +1635,310 @@ Proof.
   - apply exact_volatile_spec; [apply extra_of_refl|apply extra_of_trans|exact Hc].
 Qed.
 
+(* ---- the second contract (WHY a call answers zero bytes / an exact form gives up), for every endpoint of the suite *)
+(* the invariant of the endpoint's state; what it can still deliver (readers) / take (&mut [u8]) *)
+Definition pw_of (ek : ekind) (n0 p0 : N) (f : sfd) : Prop :=
+  match ek with
+  | ESliceR | EVecW => f_script f = []
+  | ECurR => f_script f = [] /\ cur_ok (f_st f)
+  | EMSliceW => f_script f = [] /\ nlen (s_data (f_st f)) = n0 /\ p0 <= s_pos (f_st f) /\ s_pos (f_st f) <= n0
+  | EFile | EQueue => True
+  end.
+Definition leftof_of (ek : ekind) (rd : bool) (f : sfd) : option N :=
+  if rd then Some (nlen (src_now ek (f_st f)))
+  else match ek with EMSliceW => Some (nlen (s_data (f_st f)) - s_pos (f_st f)) | _ => None end.
+
+Lemma step_log sc0 f st' : ScrInv sc0 f ->
+  ScrInv sc0 (scr_next f st') /\ logof sc0 (scr_next f st') = logof sc0 f ++ [beh_of_f (hd FFull (f_script f))].
+Proof. intros Hs. exact (log_step sc0 f (scr_next f st') Hs eq_refl eq_refl). Qed.
+Lemma zstop_log sc0 leftof f' d b : logof sc0 f' = d ++ [b] -> zeroish b = true -> ZStop sc0 leftof f'.
+Proof. intros E Hz. left. rewrite E. split; [destruct d; discriminate|rewrite last_snoc; exact Hz]. Qed.
+
+(* in-memory endpoints: the script is empty, a call answers Ok k; it answers Ok 0 on a non-empty window only when
+   nothing is left *)
+Lemma lift_call_why (c : callT sstate) sc0 (P : sfd -> Prop) leftof :
+  (forall f, P f -> f_script f = []) ->
+  (forall f m v st' m' r, P f -> in_bounds v m -> c (f_st f) m v = Val ((st', m'), r) ->
+     P (scr_next f st') /\ nlen m' = nlen m /\
+     exists k, r = Ok k /\ (k = 0 -> vs_len v <> 0 -> leftof (scr_next f st') = Some 0)) ->
+  CallWhy (lift_call c) sc0 P leftof.
+Proof.
+  intros Hsc Hc f m v f' m' r [Hp Hs] Hb H. unfold lift_call in H.
+  destruct (c (f_st f) m v) as [[[st' m1] r1]| |] eqn:E; cbn [bind] in H; try discriminate H.
+  inversion H; subst f' m1 r1. clear H.
+  destruct (Hc f m v st' m' r Hp Hb E) as (A & B & k & -> & C).
+  destruct (step_log sc0 f st' Hs) as [Hs1 _].
+  split; [split; assumption|]. split; [exact B|]. intros Hk Hv. right. apply C; assumption.
+Qed.
+
+Lemma mem_write_take_len m off k (src : list N) : off + k <= nlen m -> nlen (mem_write m off (ntake k src)) = nlen m.
+Proof. intros H. apply mem_write_length. rewrite nlen_ntake. lia. Qed.
+
+Lemma why_slice_r n0 p0 sc0 :
+  CallWhy (lift_call slice_read_volatile) sc0 (pw_of ESliceR n0 p0) (leftof_of ESliceR true).
+Proof.
+  apply lift_call_why; [intros f Hp; exact Hp|].
+  intros f m v st' m' r Hp Hb E. cbn [pw_of] in Hp. rewrite slice_read_volatile_val in E.
+  inversion E; subst st' m' r; clear E. unfold in_bounds in Hb.
+  split; [cbn [pw_of scr_next f_script]; rewrite Hp; reflexivity|].
+  split; [apply mem_write_take_len; lia|].
+  eexists. split; [reflexivity|]. intros Hk Hv.
+  cbn [leftof_of src_now scr_next f_st set_pos s_pos s_data]. f_equal.
+  unfold slice_rem in Hk. rewrite nlen_ndrop in *. lia.
+Qed.
+
+Lemma why_cur_r md n0 p0 sc0 :
+  CallWhy (lift_call (cursor_read_volatile md)) sc0 (pw_of ECurR n0 p0) (leftof_of ECurR true).
+Proof.
+  apply lift_call_why; [intros f Hp; apply Hp|].
+  intros f m v st' m' r [Hsc Hok] Hb E. rewrite (cursor_read_val md _ m v Hok) in E.
+  inversion E; subst st' m' r; clear E. unfold in_bounds in Hb.
+  set (total := N.min (vs_len v) (nlen (ndrop (cur_start (f_st f)) (s_data (f_st f))))).
+  destruct (cur_r_step n0 p0 f m v total Hok eq_refl) as [_ Hok'].
+  split; [cbn [pw_of scr_next f_script f_st]; rewrite Hsc; auto|].
+  split; [apply mem_write_take_len; unfold total; lia|].
+  eexists. split; [reflexivity|]. intros Hk Hv.
+  cbn [leftof_of src_now scr_next f_st set_pos s_pos s_data]. f_equal.
+  fold total. unfold total, cur_start in Hk. rewrite nlen_ndrop in *. lia.
+Qed.
+
+(* one write into a &mut [u8] *)
+Lemma mslice_w_why n0 p0 f m v : pw_of EMSliceW n0 p0 f ->
+  let total := N.min (vs_len v) (nlen (slice_rem (f_st f))) in
+  let st' := {| s_data := mem_write (s_data (f_st f)) (s_pos (f_st f)) (mem_read m (vs_off v) total);
+                s_pos := s_pos (f_st f) + total; s_out := s_out (f_st f) |} in
+  pw_of EMSliceW n0 p0 (scr_next f st')
+  /\ (total <> vs_len v -> leftof_of EMSliceW false (scr_next f st') = Some 0).
+Proof.
+  intros (Hsc & Hn & H1 & H2) total st'. unfold slice_rem in total.
+  assert (Ht : total <= n0 - s_pos (f_st f)) by (unfold total; rewrite nlen_ndrop; lia).
+  assert (Hl : nlen (s_data st') = n0).
+  { unfold st'. cbn [s_data]. rewrite mem_write_length; [exact Hn|].
+    unfold mem_read. rewrite nlen_ntake. lia. }
+  split.
+  - cbn [pw_of scr_next f_script f_st]. rewrite Hsc. split; [reflexivity|]. split; [exact Hl|].
+    unfold st'. cbn [s_pos]. lia.
+  - intros Hne. cbn [leftof_of scr_next f_st]. rewrite Hl. unfold st'. cbn [s_pos]. f_equal.
+    unfold total in *. rewrite nlen_ndrop in *. lia.
+Qed.
+Lemma why_mslice_w n0 p0 sc0 :
+  CallWhy (lift_call mslice_write_volatile) sc0 (pw_of EMSliceW n0 p0) (leftof_of EMSliceW false).
+Proof.
+  apply lift_call_why; [intros f Hp; apply Hp|].
+  intros f m v st' m' r Hp Hb E. rewrite mslice_write_volatile_val in E.
+  inversion E; subst st' m' r; clear E.
+  destruct (mslice_w_why n0 p0 f m v Hp) as [A C].
+  split; [exact A|]. split; [reflexivity|]. eexists. split; [reflexivity|]. intros Hk Hv. apply C. lia.
+Qed.
+
+Lemma why_vec_w md n0 p0 sc0 :
+  CallWhy (lift_call (vec_write_volatile md)) sc0 (pw_of EVecW n0 p0) (leftof_of EVecW false).
+Proof.
+  apply lift_call_why; [intros f Hp; exact Hp|].
+  intros f m v st' m' r Hp Hb E. cbn [pw_of] in Hp.
+  unfold vec_write_volatile, copy_from_volatile_slice, passert in E. rewrite N.eqb_refl in E. cbn [bind] in E.
+  destruct (padd md 332 (nlen (s_data (f_st f))) (vs_len v)) as [x| |]; cbn [bind] in E; try discriminate E.
+  inversion E; subst st' m' r; clear E.
+  split; [cbn [pw_of scr_next f_script]; rewrite Hp; reflexivity|]. split; [reflexivity|].
+  eexists. split; [reflexivity|]. intros Hk Hv. contradiction.
+Qed.
+
+(* scripted descriptors: a zero answer is scripted (FZero / FShort 0) or the real call found nothing left *)
+Lemma scr_read_why (srcS : sstate -> list N) (ExtraS : sstate -> N -> sstate -> Prop) osr sc0 :
+  RdOracle srcS ExtraS osr ->
+  CallWhy (read_volatile_raw_fd (scr_read osr)) sc0 (fun _ => True) (fun f => Some (nlen (srcS (f_st f)))).
+Proof.
+  intros Hor f m v f' m' r [_ Hs] Hb H. unfold read_volatile_raw_fd, scr_read in H. unfold in_bounds in Hb.
+  (* a real call asking for len' bytes *)
+  assert (Hreal : forall len' b st', len' <= vs_len v -> (vs_len v <> 0 -> len' = 0 -> zeroish b = true) ->
+            beh_of_f (hd FFull (f_script f)) = b ->
+            srcS st' = ndrop (nlen (ntake len' (srcS (f_st f)))) (srcS (f_st f)) ->
+            Val ((scr_next f st', mem_write m (vs_off v) (ntake len' (srcS (f_st f)))), Ok (nlen (ntake len' (srcS (f_st f)))))
+            = Val ((f', m'), r) ->
+            Qi sc0 (fun _ => True) f' /\ nlen m' = nlen m /\
+            match r with
+            | Ok k => k = 0 -> vs_len v <> 0 -> ZStop sc0 (fun f => Some (nlen (srcS (f_st f)))) f'
+            | Err (VIo e) => e = EInterrupted \/ e = EOther
+            | Err _ => True
+            end).
+  { intros len' b st' Hle Hzb Hb' H1 H0.
+    inversion H0; subst f' m' r; clear H0.
+    destruct (step_log sc0 f st' Hs) as [Hs1 Hlog].
+    split; [split; [exact I|exact Hs1]|]. split; [apply mem_write_take_len; lia|].
+    intros Hk Hv. rewrite nlen_ntake in Hk.
+    destruct (N.eq_dec len' 0) as [Hz|Hz].
+    - eapply zstop_log; [exact Hlog|]. rewrite Hb'. apply Hzb; assumption.
+    - right. cbn [scr_next f_st]. f_equal. rewrite H1, nlen_ndrop. lia. }
+  (* a scripted answer without a system call *)
+  assert (Hscr : forall (r0 : res N) b, beh_of_f (hd FFull (f_script f)) = b ->
+            match r0 with Ok k => k = 0 /\ zeroish b = true | Err (VIo e) => e = EInterrupted \/ e = EOther | Err _ => True end ->
+            forall m0, nlen m0 = nlen m -> Val ((scr_next f (f_st f), m0), r0) = Val ((f', m'), r) ->
+            Qi sc0 (fun _ => True) f' /\ nlen m' = nlen m /\
+            match r with
+            | Ok k => k = 0 -> vs_len v <> 0 -> ZStop sc0 (fun f => Some (nlen (srcS (f_st f)))) f'
+            | Err (VIo e) => e = EInterrupted \/ e = EOther
+            | Err _ => True
+            end).
+  { intros r0 b Hb' Hr0 m0 Hm0 H0. inversion H0; subst f' m' r; clear H0.
+    destruct (step_log sc0 f (f_st f) Hs) as [Hs1 Hlog].
+    split; [split; [exact I|exact Hs1]|]. split; [exact Hm0|].
+    destruct r0 as [k|[e| |]]; auto. destruct Hr0 as [_ Hz]. intros _ _.
+    eapply zstop_log; [exact Hlog|]. rewrite Hb'. exact Hz. }
+  destruct (f_script f) as [|[|j| | |] t] eqn:Es; cbn [hd beh_of_f] in Hreal, Hscr.
+  - destruct (Hor (f_st f) (vs_len v)) as (st' & E & H1 & _). rewrite E in H. cbv beta iota in H.
+    apply (Hreal (vs_len v) Full st'); [lia|intros; contradiction|reflexivity|exact H1|exact H].
+  - destruct (Hor (f_st f) (vs_len v)) as (st' & E & H1 & _). rewrite E in H. cbv beta iota in H.
+    apply (Hreal (vs_len v) Full st'); [lia|intros; contradiction|reflexivity|exact H1|exact H].
+  - destruct (Hor (f_st f) (N.min j (vs_len v))) as (st' & E & H1 & _). rewrite E in H. cbv beta iota in H.
+    apply (Hreal (N.min j (vs_len v)) (Short j) st'); [lia| |reflexivity|exact H1|exact H].
+    intros Hv Hz. cbn [zeroish]. apply N.eqb_eq. lia.
+  - refine (Hscr (Ok (nlen (@nil N))) Zero eq_refl _ _ _ H); [split; reflexivity|rewrite mem_write_nil; reflexivity].
+  - refine (Hscr (Err (VIo EInterrupted)) Eintr eq_refl _ m eq_refl H). left; reflexivity.
+  - refine (Hscr (Err (VIo EOther)) HardErr eq_refl _ m eq_refl H). right; reflexivity.
+Qed.
+
+(* a write(2) oracle that reports the whole buffer as taken *)
+Definition CountOracle (osw : sstate -> list N -> sstate * os_wres) : Prop :=
+  forall st bs, exists st', osw st bs = (st', OsCount (nlen bs)).
+Lemma file_write_count : CountOracle file_write.
+Proof.
+  intros st bs. unfold file_write. destruct (N.eqb_spec (nlen bs) 0) as [E|E]; [rewrite E|]; eexists; reflexivity.
+Qed.
+Lemma queue_write_count : CountOracle queue_write.
+Proof. intros st bs. unfold queue_write. eexists. reflexivity. Qed.
+
+Lemma scr_write_why osw sc0 : CountOracle osw ->
+  CallWhy (write_volatile_raw_fd (scr_write osw)) sc0 (fun _ => True) (fun _ => None).
+Proof.
+  intros Hor f m v f' m' r [_ Hs] Hb H. unfold write_volatile_raw_fd, scr_write in H.
+  set (bs := mem_read m (vs_off v) (vs_len v)) in *.
+  assert (Hbl : nlen bs = vs_len v) by (apply mem_read_len; exact Hb).
+  assert (Hreal : forall n b st', (vs_len v <> 0 -> n = 0 -> zeroish b = true) ->
+            beh_of_f (hd FFull (f_script f)) = b ->
+            Val ((scr_next f st', m), Ok n) = Val ((f', m'), r) ->
+            Qi sc0 (fun _ => True) f' /\ nlen m' = nlen m /\
+            match r with
+            | Ok k => k = 0 -> vs_len v <> 0 -> ZStop sc0 (fun _ => None) f'
+            | Err (VIo e) => e = EInterrupted \/ e = EOther
+            | Err _ => True
+            end).
+  { intros n b st' Hzb Hb' H0.
+    inversion H0; subst f' m' r; clear H0.
+    destruct (step_log sc0 f st' Hs) as [Hs1 Hlog].
+    split; [split; [exact I|exact Hs1]|]. split; [reflexivity|].
+    intros Hk Hv.
+    eapply zstop_log; [exact Hlog|]. rewrite Hb'. apply Hzb; assumption. }
+  assert (Hscr : forall (r0 : res N) b, beh_of_f (hd FFull (f_script f)) = b ->
+            match r0 with Ok k => k = 0 /\ zeroish b = true | Err (VIo e) => e = EInterrupted \/ e = EOther | Err _ => True end ->
+            Val ((scr_next f (f_st f), m), r0) = Val ((f', m'), r) ->
+            Qi sc0 (fun _ => True) f' /\ nlen m' = nlen m /\
+            match r with
+            | Ok k => k = 0 -> vs_len v <> 0 -> ZStop sc0 (fun _ => None) f'
+            | Err (VIo e) => e = EInterrupted \/ e = EOther
+            | Err _ => True
+            end).
+  { intros r0 b Hb' Hr0 H0. inversion H0; subst f' m' r; clear H0.
+    destruct (step_log sc0 f (f_st f) Hs) as [Hs1 Hlog].
+    split; [split; [exact I|exact Hs1]|]. split; [reflexivity|].
+    destruct r0 as [k|[e| |]]; auto. destruct Hr0 as [_ Hz]. intros _ _.
+    eapply zstop_log; [exact Hlog|]. rewrite Hb'. exact Hz. }
+  destruct (f_script f) as [|[|j| | |] t] eqn:Es; cbn [hd beh_of_f] in Hreal, Hscr.
+  - destruct (Hor (f_st f) bs) as (st' & E). rewrite E in H. cbv beta iota in H.
+    apply (Hreal (nlen bs) Full st'); [intros; lia|reflexivity|exact H].
+  - destruct (Hor (f_st f) bs) as (st' & E). rewrite E in H. cbv beta iota in H.
+    apply (Hreal (nlen bs) Full st'); [intros; lia|reflexivity|exact H].
+  - destruct (Hor (f_st f) (ntake (N.min j (nlen bs)) bs)) as (st' & E). rewrite E in H. cbv beta iota in H.
+    apply (Hreal (nlen (ntake (N.min j (nlen bs)) bs)) (Short j) st'); [|reflexivity|exact H].
+    intros Hv Hz. rewrite nlen_ntake in Hz. cbn [zeroish]. apply N.eqb_eq. lia.
+  - apply (Hscr (Ok 0) Zero eq_refl); [split; reflexivity|exact H].
+  - apply (Hscr (Err (VIo EInterrupted)) Eintr eq_refl); [left; reflexivity|exact H].
+  - apply (Hscr (Err (VIo EOther)) HardErr eq_refl); [right; reflexivity|exact H].
+Qed.
+
+Lemma ep_call_why md ek rd n0 p0 sc0 : ek_rw ek rd = true ->
+  CallWhy (e_call (endpoint_of md ek rd)) sc0 (pw_of ek n0 p0) (leftof_of ek rd).
+Proof.
+  destruct ek, rd; try discriminate; intros _; cbn [endpoint_of e_call base_kind os_read_of os_write_of].
+  - apply why_slice_r.
+  - apply why_mslice_w.
+  - apply why_vec_w.
+  - apply why_cur_r.
+  - exact (scr_read_why _ _ _ sc0 file_read_oracle).
+  - exact (scr_write_why _ sc0 file_write_count).
+  - exact (scr_read_why _ _ _ sc0 queue_read_oracle).
+  - exact (scr_write_why _ sc0 queue_write_count).
+Qed.
+
+(* the exact forms: the three specialised ones refuse / give up for lack of bytes or room, the provided loops stop
+   after a zero answer *)
+Lemma why_exact_slice_r n0 p0 sc0 :
+  ExWhy sc0 (pw_of ESliceR n0 p0) (leftof_of ESliceR true) false (lift_exact slice_read_exact_volatile).
+Proof.
+  intros f m pb f' m' r [Hp Hs] Hb H. cbn [pw_of] in Hp. unfold lift_exact, slice_read_exact_volatile in H.
+  unfold in_bounds in Hb.
+  destruct (N.ltb_spec (nlen (slice_rem (f_st f))) (vs_len pb)) as [Hlt|Hge]; cbn [bind] in H.
+  - inversion H; subst f' m' r; clear H. destruct (step_log sc0 f (f_st f) Hs) as [Hs1 _].
+    split; [split; [cbn [pw_of scr_next f_script]; rewrite Hp; reflexivity|exact Hs1]|]. split; [reflexivity|].
+    right. right. split; [reflexivity|]. split; [reflexivity|].
+    exists (nlen (slice_rem (f_st f))). split; [reflexivity|exact Hlt].
+  - rewrite slice_read_volatile_val in H. cbn [bind] in H. inversion H; subst f' m' r; clear H.
+    destruct (step_log sc0 f (set_pos (f_st f) (s_pos (f_st f) + N.min (vs_len pb) (nlen (slice_rem (f_st f))))) Hs) as [Hs1 _].
+    split; [split; [cbn [pw_of scr_next f_script]; rewrite Hp; reflexivity|exact Hs1]|].
+    split; [apply mem_write_take_len; lia|exact I].
+Qed.
+Lemma why_exact_cur_r md n0 p0 sc0 :
+  ExWhy sc0 (pw_of ECurR n0 p0) (leftof_of ECurR true) false (lift_exact (cursor_read_exact_volatile md)).
+Proof.
+  intros f m pb f' m' r [[Hsc Hok] Hs] Hb H. unfold lift_exact in H. rewrite (cursor_read_exact_val md _ m pb Hok) in H.
+  unfold in_bounds in Hb.
+  destruct (N.ltb_spec (nlen (ndrop (cur_start (f_st f)) (s_data (f_st f)))) (vs_len pb)) as [Hlt|Hge]; cbn [bind] in H.
+  - inversion H; subst f' m' r; clear H. destruct (step_log sc0 f (f_st f) Hs) as [Hs1 _].
+    split; [split; [cbn [pw_of scr_next f_script f_st]; rewrite Hsc; auto|exact Hs1]|]. split; [reflexivity|].
+    right. right. split; [reflexivity|]. split; [reflexivity|].
+    exists (nlen (ndrop (cur_start (f_st f)) (s_data (f_st f)))). split; [reflexivity|exact Hlt].
+  - inversion H; subst f' m' r; clear H.
+    destruct (cur_r_step n0 p0 f m pb (vs_len pb) Hok) as [_ Hok']; [lia|].
+    destruct (step_log sc0 f (set_pos (f_st f) (s_pos (f_st f) + vs_len pb)) Hs) as [Hs1 _].
+    split; [split; [cbn [pw_of scr_next f_script f_st]; rewrite Hsc; auto|exact Hs1]|].
+    split; [apply mem_write_take_len; lia|exact I].
+Qed.
+Lemma why_exact_mslice_w n0 p0 sc0 :
+  ExWhy sc0 (pw_of EMSliceW n0 p0) (leftof_of EMSliceW false) true (lift_exact mslice_write_all_volatile).
+Proof.
+  intros f m pb f' m' r [Hp Hs] Hb H. unfold lift_exact, mslice_write_all_volatile in H.
+  rewrite mslice_write_volatile_val in H. cbn [bind] in H.
+  destruct (mslice_w_why n0 p0 f m pb Hp) as [A C].
+  set (total := N.min (vs_len pb) (nlen (slice_rem (f_st f)))) in *.
+  set (st' := {| s_data := mem_write (s_data (f_st f)) (s_pos (f_st f)) (mem_read m (vs_off pb) total);
+                 s_pos := s_pos (f_st f) + total; s_out := s_out (f_st f) |}) in *.
+  destruct (step_log sc0 f st' Hs) as [Hs1 _].
+  destruct (N.eqb_spec total (vs_len pb)) as [E|E]; cbn [bind] in H; inversion H; subst f' m' r; clear H.
+  - split; [split; assumption|]. split; [reflexivity|exact I].
+  - split; [split; assumption|]. split; [reflexivity|]. right. left. right. apply C. exact E.
+Qed.
+
+Lemma ep_exact_why_g md ek n0 p0 sc0 F : ek_writes ek = true ->
+  ExWhy sc0 (pw_of ek n0 p0) (leftof_of ek false) true (e_exact (endpoint_of md ek false) F).
+Proof.
+  intros H. pose proof (ep_call_why md ek false n0 p0 sc0 H) as Hc.
+  destruct ek; try discriminate; cbn [endpoint_of e_exact e_call] in *; unfold write_all_volatile.
+  - apply why_exact_mslice_w.
+  - apply exact_volatile_why. exact Hc.
+  - apply exact_volatile_why. exact Hc.
+  - apply exact_volatile_why. exact Hc.
+Qed.
+Lemma ep_exact_why md ek rd n0 p0 sc0 F : ek_rw ek rd = true ->
+  ExWhy sc0 (pw_of ek n0 p0) (leftof_of ek rd) false (e_exact (endpoint_of md ek rd) F).
+Proof.
+  intros H. destruct rd; [|apply ExWhy_weaken; apply ep_exact_why_g; exact H].
+  pose proof (ep_call_why md ek true n0 p0 sc0 H) as Hc.
+  destruct ek; try discriminate; cbn [endpoint_of e_exact e_call] in *; unfold read_exact_volatile.
+  - apply why_exact_slice_r.
+  - apply why_exact_cur_r.
+  - apply ExWhy_weaken. apply exact_volatile_why. exact Hc.
+  - apply ExWhy_weaken. apply exact_volatile_why. exact Hc.
+Qed.
+
 (* ------------------------------------------------------------------ 3. the checker on the model *)
 Record wf_facts (c : case14own) : Prop := {
   wf_t : wf14 (case14_of c) = true;
@@ -1290,17 +2052,30 @@ Proof.
     unfold LogRes. cbn. auto.
 Qed.
 
+(* the bytes moved, as the observation shows them *)
+Lemma obs_moved_k c f' m' rk a b k : wf_facts c ->
+  GMovedL (is_read (w_op c)) (pj_of (w_ek c) (is_read (w_op c)) (nlen (w_content c)) (w_pos c))
+          (extra_of (w_ek c) (is_read (w_op c))) (w_target c) (init_of c) (w_mem c) (w_addr c) k f' m' ->
+  o_moved (obs14_of c (obs_of c f' m' rk a b)) = k.
+Proof.
+  intros Hf [HE HG]. pose proof (wf_rw c Hf) as Hrw. unfold ek_rw in Hrw. unfold obs14_of. cbn [o_moved].
+  destruct (is_read (w_op c)); cbn [pj_of] in HG.
+  - destruct HG as (A1 & A2 & _). apply moved_obs; assumption.
+  - destruct HG as (bs & A1 & A2 & _). rewrite sink_obs, A2, sink_init. cbn [app].
+    apply flat_read_length in A1. unfold nlen. lia.
+Qed.
+
 Lemma post_ok_own c f' m' rk a b : wf14own c = true -> PostC c f' m' (rk, a, b) -> rk < 11 ->
-  ok_C14own c (obs_of c f' m' rk a b) = true.
+  ek_ok c && (y_rk (obs_of c f' m' rk a b) <? 11) && ok_C14_core (case14_of c) (obs14_of c (obs_of c f' m' rk a b)) = true.
 Proof.
   intros Hwf [Hs (k & [HE HG] & Hkc & HL & HR)] Hrk. pose proof (wf14own_facts c Hwf) as Hf.
   cbn [rk_of fst snd] in *.
   destruct (made_flags c f' rk Hf HL) as [(H4 & He & Hh) Hhard].
-  unfold ok_C14own. assert (Hek : ek_ok c = true).
+  assert (Hek : ek_ok c = true).
   { unfold wf14own in Hwf. rewrite !andb_true_iff in Hwf. tauto. }
   rewrite Hek. cbn [andb]. replace (y_rk (obs_of c f' m' rk a b) <? 11) with true
     by (symmetry; apply N.ltb_lt; exact Hrk). cbn [andb].
-  unfold ok_C14. cbn [case14_of obs14_of c_target c_script c_count c_addr c_op c_src c_mem
+  unfold ok_C14_core. cbn [case14_of obs14_of c_target c_script c_count c_addr c_op c_src c_mem
                       o_rk o_a o_b o_calls o_moved o_sink o_mem].
   change (y_calls (obs_of c f' m' rk a b)) with (if ek_fd (w_ek c) then f_calls f' else 0).
   change (y_rk (obs_of c f' m' rk a b)) with rk. change (y_a (obs_of c f' m' rk a b)) with a.
@@ -1345,11 +2120,113 @@ Proof.
   - apply N.leb_le. exact Hkc.
 Qed.
 
+(* ---- the progress clause on the model *)
+Lemma init_pw c : wf_facts c -> pw_of (w_ek c) (nlen (w_content c)) (w_pos c) (init_of c).
+Proof.
+  intros [_ Hrw Hsc Hpos Hw]. unfold pos_ok in Hpos.
+  destruct (w_ek c); cbn [pw_of init_of f_script f_st s_pos s_data]; try exact I.
+  - apply Hsc. reflexivity.
+  - split; [apply Hsc; reflexivity|]. split; [reflexivity|]. apply N.leb_le in Hpos. lia.
+  - apply Hsc. reflexivity.
+  - split; [apply Hsc; reflexivity|]. apply N.ltb_lt in Hpos. unfold cur_ok. cbn [s_pos s_data]. lia.
+Qed.
+Lemma logof_nil_last f : logof [] f <> [] -> last (logof [] f) Zero = Full.
+Proof.
+  unfold logof, padded. cbn [app]. rewrite firstn_all2 by (rewrite repeat_length; lia).
+  rewrite map_repeat_c. cbn [beh_of_f]. induction (N.to_nat (f_calls f)) as [|n IH]; [intros H; exfalso; apply H; reflexivity|].
+  intros _. destruct n as [|n]; [reflexivity|].
+  change (repeat Full (S (S n))) with (Full :: repeat Full (S n)).
+  change (last (Full :: repeat Full (S n)) Zero) with (last (repeat Full (S n)) Zero). apply IH. discriminate.
+Qed.
+
+Lemma progress_own_ok c f' m' rk a b : wf14own c = true -> exec14own c = Val ((f', m'), (rk, a, b)) ->
+  PostC c f' m' (rk, a, b) -> progress14own c (obs_of c f' m' rk a b) = true.
+Proof.
+  intros Hwf He [Hs (k & HGM & Hkc & HL & HR)]. pose proof (wf14own_facts c Hwf) as Hf.
+  cbn [rk_of fst snd] in *.
+  unfold progress14own.
+  rewrite (obs_moved_k c f' m' rk a b k Hf HGM).
+  change (y_calls (obs_of c f' m' rk a b)) with (if ek_fd (w_ek c) then f_calls f' else 0).
+  change (y_rk (obs_of c f' m' rk a b)) with rk.
+  destruct (progress_applies (w_target c) (w_addr c) (w_count c) (w_op c) rk
+              (made_own c (if ek_fd (w_ek c) then f_calls f' else 0))) eqn:Ea; [|reflexivity].
+  unfold progress_applies in Ea. rewrite !andb_true_iff in Ea. destruct Ea as [[[Hx Hrk] Hh] Hjb].
+  apply negb_true_iff in Hrk, Hh. apply N.eqb_neq in Hrk.
+  assert (Hj : judged (w_target c) (w_addr c) (w_count c)).
+  { apply orb_true_iff in Hjb. destruct Hjb as [Hjb|Hjb]; [left; apply N.ltb_lt; exact Hjb|].
+    right. destruct (idx_of (w_target c) (w_addr c)); [discriminate|discriminate]. }
+  (* no hard error in the log *)
+  assert (Hhl : existsb is_hard (logof (w_script c) f') = false).
+  { destruct (ek_fd (w_ek c)) eqn:Efd; [exact Hh|]. rewrite (wf_sc c Hf Efd). apply logof_nil_clean. }
+  destruct HL as (_ & _ & HL). rewrite Hhl in HL.
+  rewrite Hx in HR. destruct HR as [_ Hiff]. specialize (Hiff Hhl Hj).
+  assert (Hklt : k < w_count c) by (assert (k <> w_count c) by (intros E; apply Hrk; apply Hiff; exact E); lia).
+  (* the excuse *)
+  rewrite exec14own_ep in He.
+  pose proof (wf_rw c Hf) as Hrw.
+  assert (Hexg : w_op c = WrAll ->
+            ExWhy (w_script c) (pw_of (w_ek c) (nlen (w_content c)) (w_pos c)) (leftof_of (w_ek c) (is_read (w_op c))) true
+              (e_exact (endpoint_of (w_mode c) (w_ek c) (is_read (w_op c))) (fuel14own c))).
+  { intros Eo. rewrite Eo in Hrw |- *. cbn [is_read]. apply ep_exact_why_g. exact Hrw. }
+  destruct (exec_ep_why (is_read (w_op c)) (pj_of (w_ek c) (is_read (w_op c)) (nlen (w_content c)) (w_pos c))
+              (extra_of (w_ek c) (is_read (w_op c))) (e_call (endpoint_of (w_mode c) (w_ek c) (is_read (w_op c)))) (w_script c)
+              (inv_of (w_ek c) (is_read (w_op c)) (nlen (w_content c)) (w_pos c)) (zerr_of (is_read (w_op c)))
+              (extra_of_refl _ _) (extra_of_trans _ _) (zerr_of_cases _)
+              (ep_call_spec (w_mode c) _ _ _ _ Hrw)
+              (pw_of (w_ek c) (nlen (w_content c)) (w_pos c)) (leftof_of (w_ek c) (is_read (w_op c)))
+              (ep_call_why (w_mode c) _ _ _ _ _ Hrw) (fuel14own c)
+              (e_exact (endpoint_of (w_mode c) (w_ek c) (is_read (w_op c))) (fuel14own c))
+              (ep_exact_spec (w_mode c) _ _ _ _ _ _ Hrw) c f' m' rk a b
+              (ep_exact_why (w_mode c) _ _ _ _ _ _ Hrw) Hexg (wf_t c Hf) eq_refl eq_refl (init_inv c Hf) (init_pw c Hf)
+              Hx He Hrk HL Hj) as [[Hp' _] W].
+  rewrite <- (GMovedL_det _ _ _ _ _ _ _ _ _ _ HGM) in W.
+  unfold progress_ok.
+  destruct W as [W|[[W1 W2]|[W|W]]].
+  - rewrite W. reflexivity.
+  - (* refused before the endpoint was touched *)
+    assert (Ek : k = 0).
+    { rewrite (GMovedL_det _ _ _ _ _ _ _ _ _ _ HGM). subst f'. unfold dkL. destruct (is_read (w_op c)); lia. }
+    rewrite Ek, W2. subst f'. cbn [init_of f_calls].
+    replace (if ek_fd (w_ek c) then 0 else 0) with 0 by (destruct (ek_fd (w_ek c)); reflexivity).
+    apply orb_true_iff. left. apply orb_true_iff. left. apply orb_true_iff. right. reflexivity.
+  - destruct W as [[Wn Wz]|Wl].
+    + (* the last call answered zero bytes by script: a descriptor *)
+      destruct (ek_fd (w_ek c)) eqn:Efd.
+      * apply orb_true_iff. left. apply orb_true_iff. right.
+        change (made_own c (f_calls f')) with (logof (w_script c) f').
+        destruct (logof (w_script c) f') as [|x l] eqn:El; [congruence|]. exact Wz.
+      * exfalso. rewrite (wf_sc c Hf Efd) in Wn, Wz. rewrite (logof_nil_last f' Wn) in Wz. discriminate Wz.
+    + (* nothing left *)
+      apply orb_true_iff. right. unfold left_own, leftof_of in *.
+      destruct HGM as [_ HGM]. destruct (is_read (w_op c)) eqn:Erd; cbn [pj_of] in HGM.
+      * destruct HGM as (A1 & A2 & _). injection Wl as Wl. rewrite A1, nlen_ndrop in Wl.
+        rewrite (src_init c Hrw) in Wl, A2. apply N.ltb_lt. lia.
+      * destruct HGM as (bs & A1 & A2 & _). rewrite sink_init in A2. cbn [app] in A2.
+        destruct (w_ek c) eqn:Ek; try discriminate Wl. injection Wl as Wl.
+        destruct Hp' as (_ & Hn & H1 & H2). apply flat_read_length in A1.
+        assert (Hkb : nlen bs = k) by (unfold nlen; lia).
+        cbn [sink_now] in A2. rewrite <- A2, nlen_ntake, nlen_ndrop in Hkb.
+        apply N.ltb_lt. lia.
+  - (* refused by the endpoint: shorter than the window *)
+    destruct W as [Wst (l & Wl & Wlt)].
+    assert (Ek : k = 0).
+    { rewrite (GMovedL_det _ _ _ _ _ _ _ _ _ _ HGM). unfold dkL, pj_of. rewrite Wst. destruct (is_read (w_op c)); lia. }
+    apply orb_true_iff. right. unfold left_own, leftof_of in *. rewrite Wst in Wl. rewrite Ek.
+    destruct (is_read (w_op c)) eqn:Erd.
+    + assert (Wl' : nlen (src_now (w_ek c) (f_st (init_of c))) = l) by congruence.
+      rewrite (src_init c Hrw) in Wl'. apply N.ltb_lt. lia.
+    + destruct (w_ek c) eqn:Ek'; try discriminate Wl.
+      assert (Wl' : nlen (s_data (f_st (init_of c))) - s_pos (f_st (init_of c)) = l) by congruence.
+      cbn [init_of f_st s_data s_pos] in Wl'. apply N.ltb_lt. lia.
+Qed.
+
 Lemma C14own_model_ok_lemma : forall c, wf14own c = true -> ok_C14own c (run_C14own c) = true.
 Proof.
   intros c Hwf. destruct (exec_post c Hwf) as (f' & m' & [[rk a] b] & He & HP).
   pose proof (exec_rk c _ _ _ _ He) as Hrk.
-  unfold run_C14own. rewrite He. apply (post_ok_own c f' m' rk a b Hwf HP Hrk).
+  unfold run_C14own. rewrite He. fold (obs_of c f' m' rk a b). unfold ok_C14own.
+  rewrite (post_ok_own c f' m' rk a b Hwf HP Hrk). cbn [andb].
+  exact (progress_own_ok c f' m' rk a b Hwf He HP).
 Qed.
 
 Lemma C14own_terminates_lemma : forall c, wf14own c = true -> exists f m rc, exec14own c = Val ((f, m), rc).
